@@ -10,6 +10,7 @@ import (
 	"context"
 	"fmt"
 	"math/big"
+	"math/rand"
 	"strings"
 	"time"
 
@@ -58,18 +59,41 @@ type Diverged struct{ Msg string }
 // Reset installs a witness (native side only).
 func Reset(w []Draw, t string, b map[string]int) {
 	tape, pos, Failed, tier, bounds = w, 0, nil, t, b
+	Lenient, LenientSeed, rng = false, 0, nil
 }
 
-// Lenient: draws beyond the end of the witness take default values instead of diverging (concolic fallback: the witness
-// is a solver model of a path prefix the engine could not continue; the native run completes it concretely).
-var Lenient bool
+// Lenient: draws beyond the end of the witness are completed natively instead of diverging (concolic fallback: the
+// witness is a solver model of a path prefix the engine could not continue; the native run completes it concretely).
+// LenientSeed == 0: default values; otherwise pseudo-random values from that seed.
+var (
+	Lenient     bool
+	LenientSeed int64
+	rng         *rand.Rand
+)
+
+func exhausted() bool { return Lenient && pos >= len(tape) }
+
+func rnd(n int) int {
+	if LenientSeed == 0 || n <= 0 {
+		return 0
+	}
+	if rng == nil {
+		rng = rand.New(rand.NewSource(LenientSeed))
+	}
+	return rng.Intn(n)
+}
 
 func next(label, kind string) string {
 	if pos >= len(tape) {
 		if Lenient {
 			pos++
-			if kind == "string" {
+			switch kind {
+			case "string":
 				return ""
+			case "bool":
+				return fmt.Sprint(rnd(2))
+			case "uint32", "uint64", "int32", "bigint":
+				return []string{"0", "1", "2", "100", "10000", "4294967295"}[rnd(6)]
 			}
 			return "0"
 		}
@@ -128,7 +152,13 @@ func Int32(label string) int32   { return int32(num(next(label, "int32")).Int64(
 func Bool(label string) bool     { return next(label, "bool") == "1" }
 
 // Choose draws a number in [0,n); the engine forks on it, so the result is concrete on every path.
-func Choose(label string, n int) int { return int(num(next(label, "choose")).Int64()) }
+func Choose(label string, n int) int {
+	if exhausted() {
+		pos++
+		return rnd(n)
+	}
+	return int(num(next(label, "choose")).Int64())
+}
 
 // BigInt draws an arbitrary math.Int with |v| < 2^256.
 func BigInt(label string) math.Int { return math.NewIntFromBigInt(num(next(label, "bigint"))) }
@@ -212,6 +242,13 @@ func SDKContext(ctx context.Context) sdk.Context { return sdk.UnwrapSDKContext(c
 
 // EncodeICS20 is the ICS-20 packet data encoding (JSON).
 func EncodeICS20(d transfertypes.FungibleTokenPacketData) []byte { return d.GetBytes() }
+
+// EncodeICS20Unknown is ICS-20 packet data with an additional unknown field: JSON that a lenient decoder (encoding/json)
+// accepts but the strict proto JSON codec of the transfer application refuses.
+func EncodeICS20Unknown(d transfertypes.FungibleTokenPacketData) []byte {
+	b := d.GetBytes()
+	return append(b[:len(b)-1:len(b)-1], []byte(`,"version":"ics20-2"}`)...)
+}
 
 // Garbage is packet data that is not ICS-20 JSON.
 func Garbage() []byte { return []byte("\x00not json") }
